@@ -69,6 +69,16 @@ FirstMismatch(log, pats) ==
   IN  IF bad # {} THEN CHOOSE j \in bad : \A k \in bad : j <= k
       ELSE IF Len(log) # Len(pats) THEN -1 ELSE 0
 
+(***************************************************************************)
+(* The message log: with -l <file> -M <df> ... every frame that passes the *)
+(* gate and has a non-zero address and whose format is listed under -M is  *)
+(* written to the error log, BEFORE the -f filter is applied, as           *)
+(*     ERROR - DF:<df>, L:<the line as received>                           *)
+(* one record per such line, in input order.                               *)
+(***************************************************************************)
+MlogPrefix == <<69, 82, 82, 79, 82, 32, 45, 32, 68, 70, 58>>                   \* "ERROR - DF:"
+MlogRecord(df, line) == MlogPrefix \o Digits(df) \o <<44, 32, 76, 58>> \o line    \* ", L:"
+
 ASSUME HexNoPad(0) = <<48>> /\ HexNoPad(4735190) = <<52, 56, 52, 48, 68, 54>> /\ HexNoPad(2748) = <<65, 66, 67>>
 ASSUME DFText(4) = <<68, 70, 48, 52>> /\ DFText(21) = <<68, 70, 50, 49>>
 =============================================================================
